@@ -74,3 +74,94 @@ Proof.
   unfold korth_b. intros H e He. rewrite forallb_forall in H.
   apply korth_entry_transfer. apply H. exact He.
 Qed.
+
+(* ====================================================================================== *)
+(* Transfer of the whole discretisation: the matrices computed by the executed rational    *)
+(* instance, read as reals, ARE the matrices of the real instance the theorems speak of.   *)
+(* (Division by zero is total on both sides: Qinv 0 = 0 and Rinv 0 = 0.)                  *)
+(* ====================================================================================== *)
+Lemma Q2R_one : Q2R 1 = 1.
+Proof. unfold Q2R. cbn. lra. Qed.
+
+Lemma Q2R_qopp a : Q2R (qopp a) = - Q2R a.
+Proof. unfold qopp. rewrite (Qeq_eqR _ _ (Qred_correct _)). apply Q2R_opp. Qed.
+
+Lemma Q2R_qdiv a b : Q2R (qdiv a b) = Q2R a / Q2R b.
+Proof.
+  unfold qdiv. rewrite (Qeq_eqR _ _ (Qred_correct _)).
+  destruct (Qeq_dec b 0) as [E|E].
+  - assert (H : (a / b == 0)%Q).
+    { unfold Qdiv. rewrite E. unfold Qinv. cbn. ring. }
+    rewrite (Qeq_eqR _ _ H), (Qeq_eqR _ _ E), Q2R_zero. unfold Rdiv. rewrite Rinv_0. ring.
+  - apply Q2R_div. exact E.
+Qed.
+
+Lemma dot_transfer u v : Q2R (dot Q qadd qmul u v) = rdot (v2r u) (v2r v).
+Proof.
+  destruct u as [[u1 u2] u3], v as [[w1 w2] w3]. unfold dot, v2r, vx, vy, vz. cbn [fst snd].
+  rewrite !Q2R_qadd, !Q2R_qmul. reflexivity.
+Qed.
+
+Lemma half_transfer I e :
+  Q2R (half_trans Q qadd qsub qmul qdiv inject_Z I e) = rhalf (in2r I) e.
+Proof.
+  unfold half_trans. rewrite Q2R_qdiv, !dot_transfer, knvec_transfer, dvec_transfer. reflexivity.
+Qed.
+
+Lemma inv_sum_transfer I f :
+  Q2R (inv_sum Q 0%Q 1%Q qadd qsub qmul qdiv inject_Z I f) = rinv_sum (in2r I) f.
+Proof.
+  unfold inv_sum. cbn [cf in2r]. induction (cf I) as [|e l IH]; cbn [fold_right].
+  - apply Q2R_zero.
+  - destruct (tf e =? f)%nat; [|exact IH].
+    rewrite Q2R_qadd, Q2R_qdiv, Q2R_one, half_transfer, IH. reflexivity.
+Qed.
+
+Lemma t_full_transfer I f :
+  Q2R (t_full Q 0%Q 1%Q qadd qsub qmul qdiv inject_Z I f) = rt_full (in2r I) f.
+Proof. unfold t_full. rewrite Q2R_qdiv, Q2R_one, inv_sum_transfer. reflexivity. Qed.
+
+Lemma t_flux_transfer I f :
+  Q2R (t_flux Q 0%Q 1%Q qadd qsub qmul qdiv inject_Z I f) = rt_flux (in2r I) f.
+Proof.
+  unfold t_flux. change (neu' R (in2r I) f) with (neu' Q I f).
+  destruct (neu' Q I f); [apply Q2R_zero | apply t_full_transfer].
+Qed.
+
+Lemma t_b_transfer I f :
+  Q2R (t_b Q 0%Q 1%Q qadd qsub qmul qdiv qopp inject_Z I f) = rt_b (in2r I) f.
+Proof.
+  unfold t_b. change (neu' R (in2r I) f) with (neu' Q I f). change (dir' R (in2r I) f) with (dir' Q I f).
+  destruct (neu' Q I f); [apply Q2R_one|]. destruct (dir' Q I f); [|apply Q2R_zero].
+  rewrite Q2R_qopp, t_full_transfer. reflexivity.
+Qed.
+
+Lemma bsgn_transfer I f : Q2R (bsgn Q 0%Q inject_Z I f) = rbsgn (in2r I) f.
+Proof.
+  unfold bsgn. cbn [cf in2r]. destruct (filter _ (cf I)) as [|e l]; [apply Q2R_zero | apply Q2R_inject].
+Qed.
+
+Lemma v_face_transfer I f :
+  Q2R (v_face Q 0%Q 1%Q qadd qsub qmul qdiv qopp inject_Z I f) = rv_face (in2r I) f.
+Proof.
+  unfold v_face. cbn [is_neu is_dir in2r]. destruct (is_neu I f).
+  - rewrite Q2R_qopp, Q2R_qdiv, Q2R_one, t_full_transfer. reflexivity.
+  - destruct (is_dir I f); [apply Q2R_one | apply Q2R_zero].
+Qed.
+
+(* a rational coordinate list read as a real one *)
+Definition c2r (M : coo Q) : coo R := map (fun t => (fst (fst t), snd (fst t), Q2R (snd t))) M.
+
+Theorem discretize_transfer I :
+  let '(a, b, c, d) := qdiscretize I in
+  rdiscretize (in2r I) = (c2r a, c2r b, c2r c, c2r d).
+Proof.
+  unfold qdiscretize, discretize. cbn [dim in2r]. destruct (dim I =? 0)%nat; [reflexivity|].
+  unfold flux, bound_flux, bound_pressure_cell, bound_pressure_face, c2r.
+  cbn [cf bnd nf is_neu in2r]. rewrite !map_map. cbn [fst snd].
+  f_equal; [f_equal; [f_equal|]|].
+  - apply map_ext. intros e. rewrite Q2R_qmul, t_flux_transfer, Q2R_inject. reflexivity.
+  - apply map_ext. intros f. rewrite Q2R_qmul, t_b_transfer, bsgn_transfer. reflexivity.
+  - apply map_ext. intros e. destruct (is_neu I (tg e)); [rewrite Q2R_one | rewrite Q2R_zero]; reflexivity.
+  - apply map_ext. intros f. rewrite v_face_transfer. reflexivity.
+Qed.
